@@ -66,7 +66,7 @@ static struct rtr_socket SOCK[2];
 struct mrec {
 	bool used;
 	uint32_t asn;
-	uint8_t ski0, spki0;
+	uint8_t ski0, spki0, ski19, spki90;
 	const struct rtr_socket *socket;
 };
 static struct mrec model[MCAP];
@@ -81,10 +81,11 @@ static unsigned int m_count(void)
 	return c;
 }
 
-static int m_find(uint32_t asn, uint8_t ski0, uint8_t spki0, const struct rtr_socket *s)
+static int m_find_rec(const struct spki_record *r)
 {
 	for (unsigned int i = 0; i < MCAP; i++)
-		if (model[i].used && model[i].asn == asn && model[i].ski0 == ski0 && model[i].spki0 == spki0 && model[i].socket == s)
+		if (model[i].used && model[i].asn == r->asn && model[i].ski0 == r->ski[0] && model[i].spki0 == r->spki[0] &&
+		    model[i].ski19 == r->ski[SKI_SIZE - 1] && model[i].spki90 == r->spki[SPKI_SIZE - 1] && model[i].socket == r->socket)
 			return (int)i;
 	return -1;
 }
@@ -114,6 +115,8 @@ static struct spki_record nd_key(void)
 		r.spki[i] = 0;
 	r.ski[0] = ND(uint8_t, "key.ski0");
 	r.spki[0] = ND(uint8_t, "key.spki0");
+	r.ski[SKI_SIZE - 1] = ND(uint8_t, "key.ski19");    /* first and last byte symbolic: identity must */
+	r.spki[SPKI_SIZE - 1] = ND(uint8_t, "key.spki90"); /* depend on the whole SKI / SPKI              */
 	r.asn = ND(uint32_t, "key.asn");
 	r.socket = ND_BOOL("key.sock") ? &SOCK[1] : &SOCK[0];
 	return r;
@@ -134,7 +137,7 @@ void harness(void)
 		cb_calls = cb_added = cb_removed = 0;
 		if (ops[k] == 1) { /* add */
 			struct spki_record r = nd_key();
-			int at = m_find(r.asn, r.ski[0], r.spki[0], r.socket);
+			int at = m_find_rec(&r);
 			int rc = spki_table_add_entry(T, &r);
 
 			if (at >= 0) {
@@ -143,7 +146,8 @@ void harness(void)
 			} else {
 				VASSERT(rc == SPKI_SUCCESS, "add: new key accepted");
 				VASSERT(cb_calls == 1 && cb_added == 1 && cb_last.asn == r.asn && cb_last.ski[0] == r.ski[0] &&
-						cb_last.spki[0] == r.spki[0] && cb_last.socket == r.socket,
+						cb_last.spki[0] == r.spki[0] && cb_last.spki[SPKI_SIZE - 1] == r.spki[SPKI_SIZE - 1] &&
+						cb_last.ski[SKI_SIZE - 1] == r.ski[SKI_SIZE - 1] && cb_last.socket == r.socket,
 					"add: exactly one 'added' callback with the key");
 				bool stored = false;
 
@@ -153,6 +157,8 @@ void harness(void)
 						model[i].asn = r.asn;
 						model[i].ski0 = r.ski[0];
 						model[i].spki0 = r.spki[0];
+						model[i].ski19 = r.ski[SKI_SIZE - 1];
+						model[i].spki90 = r.spki[SPKI_SIZE - 1];
 						model[i].socket = r.socket;
 						stored = true;
 					}
@@ -161,7 +167,7 @@ void harness(void)
 			}
 		} else if (ops[k] == 2) { /* remove */
 			struct spki_record r = nd_key();
-			int at = m_find(r.asn, r.ski[0], r.spki[0], r.socket);
+			int at = m_find_rec(&r);
 			int rc = spki_table_remove_entry(T, &r);
 
 			if (at < 0) {
@@ -170,7 +176,8 @@ void harness(void)
 			} else {
 				VASSERT(rc == SPKI_SUCCESS, "remove: stored key removed");
 				VASSERT(cb_calls == 1 && cb_removed == 1 && cb_last.asn == r.asn && cb_last.ski[0] == r.ski[0] &&
-						cb_last.spki[0] == r.spki[0] && cb_last.socket == r.socket,
+						cb_last.spki[0] == r.spki[0] && cb_last.spki[SPKI_SIZE - 1] == r.spki[SPKI_SIZE - 1] &&
+						cb_last.ski[SKI_SIZE - 1] == r.ski[SKI_SIZE - 1] && cb_last.socket == r.socket,
 					"remove: exactly one 'removed' callback with the key");
 				model[at].used = false;
 			}
@@ -215,10 +222,11 @@ void harness(void)
 	for (unsigned int i = 0; i < SKI_SIZE; i++)
 		q_ski[i] = 0;
 	q_ski[0] = ND(uint8_t, "q.ski0");
+	q_ski[SKI_SIZE - 1] = ND(uint8_t, "q.ski19");
 	unsigned int want_all = 0, want_ski = 0;
 
 	for (unsigned int i = 0; i < MCAP; i++) {
-		if (model[i].used && model[i].ski0 == q_ski[0]) {
+		if (model[i].used && model[i].ski0 == q_ski[0] && model[i].ski19 == q_ski[SKI_SIZE - 1]) {
 			want_ski++;
 			if (model[i].asn == q_asn)
 				want_all++;
@@ -235,11 +243,12 @@ void harness(void)
 	for (unsigned int i = 0; i < MCAP; i++) {
 		if (i >= nres || !res)
 			break;
-		VASSERT(res[i].asn == q_asn && res[i].ski[0] == q_ski[0] &&
-				m_find(res[i].asn, res[i].ski[0], res[i].spki[0], res[i].socket) >= 0,
+		VASSERT(res[i].asn == q_asn && res[i].ski[0] == q_ski[0] && res[i].ski[SKI_SIZE - 1] == q_ski[SKI_SIZE - 1] &&
+				m_find_rec(&res[i]) >= 0,
 			"get_all: every returned key is stored and has that AS and SKI");
 		for (unsigned int j = 0; j < i; j++)
-			VASSERT(!(res[i].spki[0] == res[j].spki[0] && res[i].socket == res[j].socket), "get_all: no key returned twice");
+			VASSERT(!(res[i].spki[0] == res[j].spki[0] && res[i].spki[SPKI_SIZE - 1] == res[j].spki[SPKI_SIZE - 1] &&
+				  res[i].socket == res[j].socket), "get_all: no key returned twice");
 	}
 	lrtr_free(res);
 	res = NULL;
@@ -252,10 +261,11 @@ void harness(void)
 	for (unsigned int i = 0; i < MCAP; i++) {
 		if (i >= nres || !res)
 			break;
-		VASSERT(res[i].ski[0] == q_ski[0] && m_find(res[i].asn, res[i].ski[0], res[i].spki[0], res[i].socket) >= 0,
+		VASSERT(res[i].ski[0] == q_ski[0] && res[i].ski[SKI_SIZE - 1] == q_ski[SKI_SIZE - 1] && m_find_rec(&res[i]) >= 0,
 			"search_by_ski: every returned key is stored and has that SKI");
 		for (unsigned int j = 0; j < i; j++)
-			VASSERT(!(res[i].asn == res[j].asn && res[i].spki[0] == res[j].spki[0] && res[i].socket == res[j].socket),
+			VASSERT(!(res[i].asn == res[j].asn && res[i].spki[0] == res[j].spki[0] &&
+				  res[i].spki[SPKI_SIZE - 1] == res[j].spki[SPKI_SIZE - 1] && res[i].socket == res[j].socket),
 				"search_by_ski: no key returned twice");
 	}
 	lrtr_free(res);
